@@ -41,6 +41,7 @@ class Ctx:
         self.setup_done = False
         self.max_paths = 4000
         self.ghost = {}             # task-level ghost objects (files, spec functions)
+        self._defs = {}
 
     # -- fresh symbols (deterministic per path) -------------------------------------------------
     def fresh(self, name, sort="int"):
@@ -55,8 +56,25 @@ class Ctx:
             return z3.Bool(nm)
         raise ValueError(sort)
 
+    def define(self, term, hint="d"):
+        """Name a compound term by a fresh constant (conservative extension): keeps VCs small and lets equal
+        sub-terms share one name."""
+        if not is_z3(term):
+            return term
+        t = z3.simplify(term)
+        if z3.is_const(t) or z3.is_int_value(t) or z3.is_rational_value(t):
+            return t
+        key = t.sexpr()
+        c = self._defs.get(key)
+        if c is None:
+            c = self.fresh(hint, "int" if t.is_int() else "real")
+            self.assumptions.append(c == t)
+            self._defs[key] = c
+        return c
+
     # -- paths ----------------------------------------------------------------------------------
     def start_path(self, prefix):
+        self._defs = {}
         self.pc = []
         self.trace = []
         self.prefix = list(prefix)
